@@ -212,3 +212,8 @@ CHECKS["C08"] = CodecCheck(
 from harness.checks_scalar import ScalarCheck  # noqa: E402
 
 CHECKS["C05"] = ScalarCheck()
+
+
+from harness.checks_expr import ExprCheck  # noqa: E402
+
+CHECKS["C10"] = ExprCheck()
